@@ -20,7 +20,14 @@ for d in sorted(Path("seeded").iterdir()):
             cells.append(f"{p}: missed")
         else:
             cells.append(f"{p}: error")
-    rows.append((d.name, meta.get("summary", "see notes.md"), meta.get("needs", "see notes.md"), "; ".join(cells)))
+    status = "; ".join(cells)
+    if meta.get("superseded"):
+        status = "superseded (patch no longer applies: " + meta["superseded"].split(";")[0] + ")"
+    elif meta.get("rebased"):
+        status += " (patch re-applied on " + meta["rebased"]["on"] + ")"
+    if meta.get("inert"):
+        status += " — " + meta["inert"]
+    rows.append((d.name, meta.get("summary", "see notes.md"), meta.get("needs", "see notes.md"), status))
 print("| seeded change | what it changes | needs, to manifest | checks |")
 print("|---|---|---|---|")
 for r in rows:
